@@ -298,17 +298,26 @@ def _while_body(func):
     return loops[0].body
 
 
+def _is_call(st, attr):
+    return isinstance(st, ast.Expr) and isinstance(st.value, ast.Call) and isinstance(st.value.func, ast.Attribute) \
+        and st.value.func.attr == attr
+
+
 def _threshold(ifnode, where):
-    """the `if <x>_count > N: raise ScrapliAuthenticationFailed` inside a credential branch -> limit"""
-    tags, limit = [], None
+    """a credential block `if re.search(...): buf = b""; count += 1; if count > N: raise ScrapliAuthenticationFailed;
+    write(...); send_return()` -> (limit, buffer variable, counter variable, recognised nodes)"""
+    tags, limit, bufvar, cntvar, seen = [], None, None, None, []
     for st in ifnode.body:
-        if isinstance(st, ast.Assign) and isinstance(st.value, ast.Constant) and st.value.value == b"":
-            tags.append("clear")
-        elif isinstance(st, ast.AugAssign) and isinstance(st.op, ast.Add) and isinstance(st.value, ast.Constant) and st.value.value == 1:
-            tags.append("incr")
+        if isinstance(st, ast.Assign) and isinstance(st.value, ast.Constant) and st.value.value == b"" \
+                and len(st.targets) == 1 and isinstance(st.targets[0], ast.Name):
+            tags.append("clear"); bufvar = st.targets[0].id; seen.append(st)
+        elif isinstance(st, ast.AugAssign) and isinstance(st.op, ast.Add) and isinstance(st.value, ast.Constant) and st.value.value == 1 \
+                and isinstance(st.target, ast.Name):
+            tags.append("incr"); cntvar = st.target.id; seen.append(st)
         elif isinstance(st, ast.If) and isinstance(st.test, ast.Compare) and any(isinstance(x, ast.Raise) for x in ast.walk(st)):
             cmp = st.test
-            if len(cmp.ops) != 1 or not isinstance(cmp.comparators[0], ast.Constant) or not isinstance(cmp.comparators[0].value, int):
+            if len(cmp.ops) != 1 or not isinstance(cmp.comparators[0], ast.Constant) or not isinstance(cmp.comparators[0].value, int) \
+                    or not (isinstance(cmp.left, ast.Name) and cmp.left.id == cntvar):
                 raise TranslateError(f"{where}: unrecognised guard {ast.dump(cmp)}")
             n = cmp.comparators[0].value
             if isinstance(cmp.ops[0], ast.Gt):
@@ -320,72 +329,175 @@ def _threshold(ifnode, where):
             rs = [x for x in ast.walk(st) if isinstance(x, ast.Raise)]
             if not all(isinstance(r.exc, ast.Call) and getattr(r.exc.func, "id", "") == "ScrapliAuthenticationFailed" for r in rs):
                 raise TranslateError(f"{where}: guard raises something else than ScrapliAuthenticationFailed")
+            if st.orelse or not isinstance(st.body[-1], ast.Raise):
+                raise TranslateError(f"{where}: guard does not end in raise")
             tags.append("guard")
-        elif isinstance(st, ast.Expr) and isinstance(st.value, ast.Call) and isinstance(st.value.func, ast.Attribute):
-            if st.value.func.attr == "write":
-                tags.append("write")
-            elif st.value.func.attr == "send_return":
-                tags.append("return")
-    if tags != ["clear", "incr", "guard", "write", "return"]:
+        elif _is_call(st, "write"):
+            tags.append("write"); seen.append(st)
+        elif _is_call(st, "send_return"):
+            tags.append("return"); seen.append(st)
+        elif isinstance(st, (ast.Assign, ast.AugAssign, ast.AnnAssign, ast.Return, ast.Continue, ast.Break, ast.Raise, ast.Try, ast.While, ast.For, ast.If)):
+            raise TranslateError(f"{where}: unexpected statement in a credential block: {ast.dump(st)[:120]}")
+    if tags != ["clear", "incr", "guard", "write", "return"] or ifnode.orelse:
         raise TranslateError(f"{where}: credential branch is not clear/incr/guard/write/return but {tags}")
-    return limit
+    return limit, bufvar, cntvar, seen
+
+
+def _targets(st):
+    """names assigned by a statement"""
+    if isinstance(st, ast.Assign):
+        out = []
+        for t in st.targets:
+            out += [e.id for e in (t.elts if isinstance(t, ast.Tuple) else [t]) if isinstance(e, ast.Name)]
+        return out
+    if isinstance(st, (ast.AugAssign, ast.AnnAssign)) and isinstance(st.target, ast.Name):
+        return [st.target.id]
+    return []
+
+
+def _err_branch(h, bufvar, cnt_kind, where):
+    """statements of the `except ScrapliConnectionError:` body -> [ErrStmt as lean text], attempts variable"""
+    out, attempts = [], None
+    for st in h.body:
+        if _is_call(st, "send_return"):
+            out.append(".sendReturn")
+        elif isinstance(st, ast.AugAssign) and isinstance(st.op, ast.Add) and isinstance(st.value, ast.Constant) and st.value.value == 1 \
+                and isinstance(st.target, ast.Name) and st.target.id not in cnt_kind and st.target.id != bufvar:
+            if attempts not in (None, st.target.id):
+                raise TranslateError(f"{where}: two different counters bumped in the except branch")
+            attempts = st.target.id
+            out.append(".bumpAttempts")
+        elif isinstance(st, ast.Assign) and isinstance(st.value, ast.Constant) and st.value.value == b"" and _targets(st) == [bufvar]:
+            out.append(".clearBuf")
+        elif isinstance(st, ast.Assign) and isinstance(st.value, ast.Constant) and st.value.value == 0 and type(st.value.value) is int \
+                and _targets(st) and all(t in cnt_kind for t in _targets(st)):
+            out += [f".resetCount .{cnt_kind[t]}" for t in _targets(st)]
+        elif isinstance(st, ast.Continue):
+            out.append(".cont")
+            break
+        elif isinstance(st, ast.Expr) and isinstance(st.value, ast.Constant):
+            continue   # a string used as a comment
+        elif isinstance(st, ast.Expr) and isinstance(st.value, ast.Call) and isinstance(st.value.func, ast.Attribute) \
+                and isinstance(st.value.func.value, ast.Attribute) and st.value.func.value.attr == "logger":
+            continue   # self.logger.<level>(...)
+        else:
+            raise TranslateError(f"{where}: unrecognised statement in the ScrapliConnectionError branch: {ast.dump(st)[:160]}")
+    if not out or out[-1] != ".cont":
+        raise TranslateError(f"{where}: the ScrapliConnectionError branch does not end in `continue`")
+    return out, attempts
 
 
 def loop_facts(rel, cls, fn):
     func = _func(_cls(rel, cls), fn)
     pvars = _pattern_vars(func, "telnet" if fn.endswith("telnet") else "ssh")
     body = _while_body(func)
-    bumped = set()   # names incremented next to a send_return (the attempts counter)
     order, limits = [], {}
     handler = catches = kicks = False
     handler_pos = None
-    for i, st in enumerate(body):
+    bufvar, cnt_kind, attempts_vars = None, {}, set()
+    recognised = []            # statements whose effect on the loop state is accounted for
+    cred_ifs, kick_ifs, tries = [], [], []
+    # pass 1: the credential blocks name the state variables
+    for st in body:
         if isinstance(st, ast.If):
             tgt = _search_target(st.test, pvars)
             if tgt is not None:
                 order.append(tgt)
                 if tgt in KINDS:
-                    limits[tgt] = _threshold(st, f"{rel}:{st.lineno}")
+                    lim, bv, cv, seen = _threshold(st, f"{rel}:{st.lineno}")
+                    limits[tgt] = lim
+                    if bufvar not in (None, bv) or cv in cnt_kind:
+                        raise TranslateError(f"{rel}:{st.lineno}: credential blocks do not share one buffer / have distinct counters")
+                    bufvar, cnt_kind[cv] = bv, tgt
+                    recognised += seen
+                    cred_ifs.append(st)
                 elif tgt == "prompt":
-                    if not any(isinstance(x, ast.Return) for x in st.body):
-                        raise TranslateError(f"{rel}:{st.lineno}: prompt branch does not return")
+                    if len(st.body) != 1 or not isinstance(st.body[0], ast.Return) or st.orelse:
+                        raise TranslateError(f"{rel}:{st.lineno}: prompt branch is not a bare return")
                 else:
                     raise TranslateError(f"{rel}:{st.lineno}: unknown pattern {tgt}")
-                continue
-            if isinstance(st.test, ast.UnaryOp) and isinstance(st.test.op, ast.Not):
-                # `if not buf:` ... send_return when the clock says so
-                if any(n == "send_return" for n, _ in _calls(st)):
-                    cmps = [c for c in ast.walk(st) if isinstance(c, ast.Compare) and c is not st.test]
-                    if len(cmps) != 1 or not isinstance(cmps[0].ops[0], ast.Gt):
-                        raise TranslateError(f"{rel}:{st.lineno}: kick condition is not `elapsed > interval * attempts`")
-                    r = cmps[0].comparators[0]
-                    if not (isinstance(r, ast.BinOp) and isinstance(r.op, ast.Mult)):
-                        raise TranslateError(f"{rel}:{st.lineno}: kick bound is not a product")
-                    kicks = True
-                    bumped |= {n.target.id for n in ast.walk(st) if isinstance(n, ast.AugAssign) and isinstance(n.target, ast.Name)}
-        if isinstance(st, ast.Try):
-            for h in st.handlers:
-                names = [getattr(h.type, "id", None)] if not isinstance(h.type, ast.Tuple) else [getattr(e, "id", None) for e in h.type.elts]
-                if "ScrapliConnectionError" in names:
-                    if not (any(n == "send_return" for n, _ in _calls(h)) and any(isinstance(x, ast.Continue) for x in ast.walk(h))):
-                        raise TranslateError(f"{rel}:{h.lineno}: ScrapliConnectionError handler is not send_return + continue")
-                    catches = True
-                    bumped |= {n.target.id for n in ast.walk(h) if isinstance(n, ast.AugAssign) and isinstance(n.target, ast.Name)}
-        if isinstance(st, ast.Expr) and any(n == "_ssh_message_handler" for n, _ in _calls(st)):
+            elif isinstance(st.test, ast.UnaryOp) and isinstance(st.test.op, ast.Not) and any(n == "send_return" for n, _ in _calls(st)):
+                kick_ifs.append(st)
+        elif isinstance(st, ast.Try):
+            tries.append(st)
+        elif isinstance(st, ast.Expr) and any(n == "_ssh_message_handler" for n, _ in _calls(st)):
             handler, handler_pos = True, len(order)
     if len(order) != 3 or order[2] != "prompt" or order[0] == order[1] or not set(order[:2]) <= set(KINDS):
         raise TranslateError(f"{rel}: {fn}: pattern tests are {order}, expected two credentials then prompt")
     if handler and handler_pos != 0:
         raise TranslateError(f"{rel}: {fn}: _ssh_message_handler is not called before the pattern tests")
-    # initial return_attempts
+    # the kick: `if not <chunk>: [now = ...]; if elapsed > interval * attempts: send_return(); attempts += 1`
+    for st in kick_ifs:
+        where = f"{rel}:{st.lineno}"
+        inner = [x for x in st.body if isinstance(x, ast.If)]
+        others = [x for x in st.body if not isinstance(x, ast.If)]
+        if len(inner) != 1 or st.orelse or inner[0].orelse or not all(isinstance(x, ast.Assign) and not _is_state(x, bufvar, cnt_kind) for x in others):
+            raise TranslateError(f"{where}: kick block has an unexpected shape")
+        cmp = inner[0].test
+        if not (isinstance(cmp, ast.Compare) and len(cmp.ops) == 1 and isinstance(cmp.ops[0], ast.Gt)
+                and isinstance(cmp.comparators[0], ast.BinOp) and isinstance(cmp.comparators[0].op, ast.Mult)):
+            raise TranslateError(f"{where}: kick condition is not `elapsed > interval * attempts`")
+        ib = inner[0].body
+        if not (len(ib) == 2 and _is_call(ib[0], "send_return") and isinstance(ib[1], ast.AugAssign) and isinstance(ib[1].op, ast.Add)
+                and isinstance(ib[1].value, ast.Constant) and ib[1].value.value == 1 and isinstance(ib[1].target, ast.Name)):
+            raise TranslateError(f"{where}: kick body is not send_return(); attempts += 1")
+        attempts_vars.add(ib[1].target.id)
+        recognised += ib
+        kicks = True
+    # the except branch around read()
+    err_branch = []
+    for st in tries:
+        for h in st.handlers:
+            names = [getattr(h.type, "id", None)] if not isinstance(h.type, ast.Tuple) else [getattr(e, "id", None) for e in h.type.elts]
+            if "ScrapliConnectionError" in names:
+                if catches:
+                    raise TranslateError(f"{rel}:{h.lineno}: two ScrapliConnectionError handlers")
+                err_branch, av = _err_branch(h, bufvar, cnt_kind, f"{rel}:{h.lineno}")
+                if av:
+                    attempts_vars.add(av)
+                recognised += list(h.body)
+                catches = True
+    if len(attempts_vars) > 1 or attempts_vars & (set(cnt_kind) | {bufvar}):
+        raise TranslateError(f"{rel}: {fn}: attempts counter not unique: {attempts_vars}")
+    # the accumulation `buf += <chunk>.lower()` : exactly one, at the top level of the loop, before the tests
+    acc = [st for st in body if isinstance(st, ast.AugAssign) and isinstance(st.op, ast.Add) and _targets(st) == [bufvar]]
+    if len(acc) != 1 or body.index(acc[0]) > body.index(cred_ifs[0]):
+        raise TranslateError(f"{rel}: {fn}: expected exactly one `{bufvar} += ...` before the pattern tests")
+    recognised += acc
+    # pass 2: nothing else in the loop may touch the loop state or write to the device
+    state = set(cnt_kind) | {bufvar} | attempts_vars
+    rec_ids = {id(x) for r in recognised for x in ast.walk(r)}
+    loop = [n for n in ast.walk(func) if isinstance(n, ast.While)][0]
+    for n in ast.walk(loop):
+        if id(n) in rec_ids:
+            continue
+        if isinstance(n, (ast.Assign, ast.AugAssign, ast.AnnAssign)) and set(_targets(n)) & state:
+            raise TranslateError(f"{rel}:{n.lineno}: {fn}: unaccounted assignment to loop state {sorted(set(_targets(n)) & state)}")
+        if isinstance(n, ast.Call) and isinstance(n.func, ast.Attribute) and n.func.attr in ("write", "send_return"):
+            raise TranslateError(f"{rel}:{n.lineno}: {fn}: unaccounted {n.func.attr}() in the login loop")
+        if isinstance(n, (ast.Delete, ast.Global, ast.Nonlocal)):
+            raise TranslateError(f"{rel}:{n.lineno}: {fn}: unexpected statement in the login loop")
+    # initial values: counters 0, buffer b"", attempts as found
     attempts0 = None
-    if kicks or catches:
-        if len(bumped) != 1:
-            raise TranslateError(f"{rel}: {fn}: attempts counter not unique: {bumped}")
-        for n in ast.walk(func):
-            if isinstance(n, ast.Assign) and isinstance(n.targets[0], ast.Name) and n.targets[0].id in bumped:
-                attempts0 = ast.literal_eval(n.value)
-    return dict(order=order[:2], limits=limits, handler=handler, catches=catches, kicks=kicks, attempts0=attempts0)
+    pre = [n for n in func.body if not any(isinstance(x, ast.While) for x in ast.walk(n))]
+    init = {}
+    for n in pre:
+        if isinstance(n, ast.Assign) and isinstance(n.value, ast.Constant):
+            for t in _targets(n):
+                init[t] = n.value.value
+    for v in cnt_kind:
+        if init.get(v) != 0:
+            raise TranslateError(f"{rel}: {fn}: counter {v} does not start at 0")
+    if init.get(bufvar) != b"":
+        raise TranslateError(f"{rel}: {fn}: buffer {bufvar} does not start empty")
+    if attempts_vars:
+        attempts0 = init.get(next(iter(attempts_vars)))
+    return dict(order=order[:2], limits=limits, handler=handler, catches=catches, kicks=kicks, attempts0=attempts0,
+                err_branch=err_branch)
+
+
+def _is_state(st, bufvar, cnt_kind):
+    return bool(set(_targets(st)) & (set(cnt_kind) | {bufvar}))
 
 
 def fatal_table():
@@ -502,6 +614,10 @@ def generate():
         o += f"\ndef {key} : Loop → Bool\n"
         for name, lf in f["loops"].items():
             o += f"  | .{name} => {_bool(lf[field])}\n"
+    o += "\n-- statements of the `except ScrapliConnectionError:` branch around read() (empty: no such branch)\n"
+    o += "def connErrBranch : Loop → List ErrStmt\n"
+    for name, lf in f["loops"].items():
+        o += f"  | .{name} => [{', '.join(lf['err_branch'])}]\n"
     a0 = {lf["attempts0"] for lf in f["loops"].values() if lf["kicks"] or lf["catches"]}
     if len(a0) != 1 or not isinstance(next(iter(a0)), int):
         raise TranslateError(f"initial return_attempts not unique: {a0}")
